@@ -26,3 +26,20 @@ package api
 //  - A file is removed only under the same enabling conditions.
 //@ effect write-output C17: site=call WriteFile | call MkdirAll ; in=api ; root=rebuildImpl ; guard=true:shouldWriteFiles ; spawn-guard=true:args.write,false:args.options.WriteToStdout ; cell=shouldWriteFiles:!call log.HasErrors() ; returns=false:shouldWriteFiles|after:call WriteFile|after:call MkdirAll|true:call Equal(call ReadFile(result.AbsPath)#0,result.Contents)
 //@ effect remove-stale C17: site=call Remove ; in=api ; root=rebuildImpl ; spawn-guard=true:args.write,false:args.options.WriteToStdout
+
+// ----------------------------------------------------------------------------------------------
+// C20: "Cancel and Dispose return only after the running build has ended": on return either there was
+// no build in progress when the context was inspected, or its wait group has been waited on.
+//@ func (*internalContext).Cancel
+//@   arith int
+//@   prop C20
+//@   opt scenario cancel_dispose_wait
+//@   requires ctx != nil
+//@   ensures waited: old(ctx.activeBuild) == nil || waited(&old(ctx.activeBuild).waitGroup)
+
+//@ func (*internalContext).Dispose
+//@   arith int
+//@   prop C20
+//@   opt scenario cancel_dispose_wait
+//@   requires ctx != nil
+//@   ensures waited: old(ctx.activeBuild) == nil || waited(&old(ctx.activeBuild).waitGroup)
